@@ -49,7 +49,7 @@ def key_of(f: tuple) -> str:
     if clause == "C20b_late":
         return f"C20b:late:{d1}@{d2}"
     if clause == "C20c_still_binding":
-        return f"C20c:still-binding:{d1}@{d2}"
+        return f"C20c:still-binding:{d1}@{d2}" + (f":{d3}" if d3 else "")
     if clause == "C20c_retry":
         return f"C20c:retry:{d1}:{d2}:{d3}"  # role : outcome : stuck | peerstuck | clean
     if clause == "C20a_success":
@@ -211,6 +211,12 @@ def main(tier: str, replay: str | None) -> None:
     for n, (o, sc, pa, pf) in enumerate(base_jobs):
         if n % 2 == 0:
             jobs.append((o + "+soon", dict(sc, retry_after=(0.0, 0.05, 2.0)[(n // 2) % 3]), pa, pf))
+
+    # the pair's second binding is one without the fourth frame, after a first with it (what the first left behind
+    # must not reach into the second): round 2 is the model's round 2 either way - a complete, loss-free handshake
+    for n, (o, sc, pa, pf) in enumerate(base_jobs):
+        if X.RATIFY[sc["flow"]] and n % 2 == 1:
+            jobs.append((o + "+plain2", dict(sc, plain2=1), pa, pf))
 
     import concurrent.futures as cf
     items, loop_exc, n_noisy = [], 0, 0
